@@ -4,6 +4,7 @@
 From Coq Require Import List NArith ZArith.
 From TarsV Require Import Base.Hex Conf.Conf Conf.ConfSpec Conf.ConfProofs.
 From TarsV Require Endpoint.Parse.
+From TarsV Require Import Conf.GoStr Gen.ConfTranslated Conf.ConfXlate.
 Import ListNotations.
 Open Scope N_scope.
 
@@ -155,6 +156,28 @@ Proof. exact ConfProofs.parse_old_refuted. Qed.
 Theorem C17_repair_conservative : forall bs t, parse bs = Ok t -> parse_old bs = Ok t.
 Proof. exact ConfProofs.repair_conservative. Qed.
 
+(* ---- the line-level code itself ----------------------------------------------------------------- *)
+(* Gen/ConfTranslated.v is the Go source of the CURRENT tree, translated on every run (harness/c17xlate.go, target
+   language Conf/GoStr.v): the body of the line loop of InitFromBytes (effects on the current element), analysisPath,
+   and the four typed getters. For all inputs they compute what the model computes: *)
+Theorem C17_line_body_translated : forall text, tr_conf_line text = Some (ConfXlate.line_effects text).
+Proof. exact ConfXlate.tr_conf_line_equiv. Qed.
+(* ... so the model's scanner loop over a text run is the loop with the translated body *)
+Theorem C17_line_loop_translated : forall segs s cur, ConfXlate.tr_segments s cur segs = do_segments s cur segs.
+Proof. exact ConfXlate.tr_segments_equiv. Qed.
+(* the statements around the loop are the expected ones (scanner over the token, ScanLines, the scanner's error returned) *)
+Theorem C17_line_loop_frame : tr_conf_line_frame = true.
+Proof. exact ConfXlate.tr_conf_line_frame_pinned. Qed.
+Theorem C17_analysis_path_translated : forall p,
+  tr_analysisPath p = match analysis_path p with Ok v => Some v | _ => None end.
+Proof. exact ConfXlate.tr_analysisPath_equiv. Qed.
+Theorem C17_getters_translated : forall s p,
+  (forall d, get_string_def s p d = ConfXlate.on_elem s p (fun v e => tr_GetStringWithDef v e d)) /\
+  (forall d, get_int_def s p d = ConfXlate.on_elem s p (fun v e => tr_GetIntWithDef v e d)) /\
+  (forall d, get_int32_def s p d = ConfXlate.on_elem s p (fun v e => tr_GetInt32WithDef v e d)) /\
+  (forall d, get_bool_def s p d = ConfXlate.on_elem s p (fun v e => tr_GetBoolWithDef v e d)).
+Proof. exact ConfXlate.getters_translated. Qed.
+
 (* ---- no panic -------------------------------------------------------------------------------- *)
 Theorem C17_no_panic_parse : forall bs n, parse bs <> Panic n.
 Proof. exact ConfProofs.parse_no_panic. Qed.
@@ -191,5 +214,10 @@ Print Assumptions C17_whole_represented.
 Print Assumptions C17_outcomes.
 Print Assumptions C17_old_loop_refuted.
 Print Assumptions C17_repair_conservative.
+Print Assumptions C17_line_body_translated.
+Print Assumptions C17_line_loop_translated.
+Print Assumptions C17_line_loop_frame.
+Print Assumptions C17_analysis_path_translated.
+Print Assumptions C17_getters_translated.
 Print Assumptions C17_no_panic_parse.
 Print Assumptions C17_no_panic_getters.
